@@ -168,7 +168,7 @@ TrTables ==
                         [] e.op = "enumstring" -> (IF e.failures # << >> THEN {"C17:enum_string_panic"} ELSE {})
                         [] e.op = "sweep" -> (IF e.failures # << >> THEN
                                                  {IF e.entry = "nackequiv32" THEN "C12:equivariance"
-                                                  ELSE IF e.entry = "rembscale24" THEN "C14:scaling" ELSE "C16:sweep"} ELSE {}) IN
+                                                  ELSE IF e.entry \in {"rembscale24", "rembencint", "rembenctop18", "rembencscale", "rembencsat"} THEN "C14:scaling" ELSE "C16:sweep"} ELSE {}) IN
      /\ UNCHANGED vars /\ Step(Verdict(G, {}), {"nack"}, IF e.op = "rletable" THEN "rle" ELSE e.entry)
 
 DecRes(ev) == [ok |-> ev.ok, out |-> ev.out, panic |-> ev.panic, slow |-> ev.slow, alloc |-> ev.alloc]
